@@ -68,6 +68,8 @@ func ge(a, b lin) cons { return le(b, a) }                                      
 func eqc(a, b lin) []cons { return []cons{le(a, b), le(b, a)} }                           // a == b
 
 type LB struct {
+	extra         []cons             // facts valid on entry to the function (proved at every call site)
+	convSide      map[*ssa.Convert]int
 	side          map[*ssa.BinOp]int // 0 unknown, 1 proving, 2 proven, 3 failed
 	p             *Prog
 	f             *ssa.Function
@@ -184,6 +186,9 @@ func (lb *LB) linOf(v ssa.Value) lin {
 			if db == sb && db == 64 && su && !du {
 				return lb.linOf(x.X) // uint -> int: assumes < 2^63
 			}
+			if db >= sb && !su && du && lb.convOK(x) {
+				return lb.linOf(x.X) // int -> uint of a provably non-negative value
+			}
 		}
 	case *ssa.ChangeType:
 		return lb.linOf(x.X)
@@ -206,6 +211,28 @@ func (lb *LB) linOf(v ssa.Value) lin {
 		}
 	}
 	return linVar(lvar{0, v})
+}
+
+// convOK: the signed operand of an int->uint conversion is provably non-negative at its program point
+func (lb *LB) convOK(x *ssa.Convert) bool {
+	if lb.convSide == nil {
+		lb.convSide = map[*ssa.Convert]int{}
+	}
+	switch lb.convSide[x] {
+	case 1, 3:
+		return false
+	case 2:
+		return true
+	}
+	lb.convSide[x] = 1
+	var blk *ssa.BasicBlock = x.Block()
+	ok := lb.prove([]cons{ge(lb.linOf(x.X), linConst(0))}, blk, nil, map[lvar]lin{}, 2)
+	if ok {
+		lb.convSide[x] = 2
+	} else {
+		lb.convSide[x] = 3
+	}
+	return ok
 }
 
 // sideOK: the unsigned subtraction x.X - x.Y provably does not wrap at its own program point
@@ -495,6 +522,18 @@ func (lb *LB) defFacts(v lvar) []cons {
 			out = append(out, eqc(me, hi.addScaled(lo, -1))...)
 		case *ssa.MakeSlice:
 			out = append(out, eqc(me, lb.linOf(x.Len))...)
+		case *ssa.Phi:
+			isLoop := false
+			for _, p := range x.Block().Preds {
+				if x.Block().Dominates(p) {
+					isLoop = true
+				}
+			}
+			if isLoop {
+				if k, ok := lb.loopLenInvariant(x); ok {
+					out = append(out, eqc(me, linConst(k))...)
+				}
+			}
 		case *ssa.Call:
 			if bi, ok := x.Call.Value.(*ssa.Builtin); ok && bi.Name() == "append" && len(x.Call.Args) == 2 {
 				base := lb.lenLin(x.Call.Args[0])
@@ -679,6 +718,50 @@ func (lb *LB) callLenContract(c *ssa.Call) ([]cons, bool) {
 	case "bytes.Repeat":
 		if n, ok := constInt(cc.Args[1]); ok {
 			return eqc(me, lb.lenLin(cc.Args[0]).scale(n)), true
+		}
+	}
+	// repo function with a single return whose result length is a function of its parameters:
+	// x[lo:lo+K] (K constant) or make([]T, linear(params))
+	if inRepo(sc) && sc.Blocks != nil {
+		var rets []*ssa.Return
+		instrsOf(sc, func(_ *ssa.BasicBlock, in ssa.Instruction) {
+			if r, ok := in.(*ssa.Return); ok {
+				rets = append(rets, r)
+			}
+		})
+		if len(rets) == 1 && len(rets[0].Results) >= 1 {
+			ps := map[lvar]lin{}
+			for i, prm := range sc.Params {
+				if i < len(cc.Args) {
+					if _, _, isInt := intKind(prm.Type()); isInt {
+						ps[lvar{0, prm}] = lb.linOf(cc.Args[i])
+					} else {
+						ps[lvar{1, prm}] = lb.lenLin(cc.Args[i])
+					}
+				}
+			}
+			onlyParams := func(l lin) bool {
+				for v := range l.c {
+					if _, ok := v.v.(*ssa.Parameter); !ok {
+						return false
+					}
+				}
+				return true
+			}
+			switch r := rets[0].Results[0].(type) {
+			case *ssa.Slice:
+				if r.Low != nil && r.High != nil {
+					d := lb.linOf(r.High).addScaled(lb.linOf(r.Low), -1)
+					if len(d.c) == 0 && d.k >= 0 {
+						return eqc(me, linConst(d.k)), true
+					}
+				}
+			case *ssa.MakeSlice:
+				l := lb.linOf(r.Len)
+				if onlyParams(l) {
+					return eqc(me, lb.applySubst(l, ps)), true
+				}
+			}
 		}
 	}
 	// repo function returning a constant-length slice (e.g. a 32-byte zero literal)
@@ -960,6 +1043,7 @@ func (lb *LB) closure(cs []cons, subst map[lvar]lin) []cons {
 // prove: all goals hold at (block b, before instruction idx) given extra facts.
 func (lb *LB) prove(goals []cons, b *ssa.BasicBlock, extra []cons, subst map[lvar]lin, depth int) bool {
 	facts := append(append([]cons{}, lb.branchFacts(b)...), extra...)
+	facts = append(facts, lb.extra...)
 	return lb.proveWith(goals, facts, subst, depth)
 }
 
@@ -1021,6 +1105,7 @@ func (lb *LB) proveWith(goals []cons, facts []cons, subst map[lvar]lin, depth in
 		sys := lb.closure(append(append([]cons{}, sf...), neg), subst)
 		// candidate case splits
 		var splits [][]alt
+		splitSeen := map[*ssa.Call]bool{}
 		seen := map[lvar]bool{}
 		var vars []lvar
 		for _, c := range sys {
@@ -1073,6 +1158,24 @@ func (lb *LB) proveWith(goals []cons, facts []cons, subst map[lvar]lin, depth in
 				}
 				if len(alts) == len(phi.Edges) {
 					splits = append(splits, alts)
+				}
+			}
+			// results of acyclic repo callees / closures: one alternative per return path
+			{
+				var call *ssa.Call
+				switch y := v.v.(type) {
+				case *ssa.Call:
+					call = y
+				case *ssa.Extract:
+					call, _ = y.Tuple.(*ssa.Call)
+				}
+				if call != nil && !splitSeen[call] {
+					if _, isB := call.Call.Value.(*ssa.Builtin); !isB {
+						if alts, ok := lb.callAlts(call, subst); ok {
+							splitSeen[call] = true
+							splits = append(splits, alts)
+						}
+					}
 				}
 			}
 			if bo, ok := v.v.(*ssa.BinOp); ok && v.kind == 0 && (bo.Op == token.QUO || bo.Op == token.REM) {
@@ -1197,4 +1300,210 @@ func (lb *LB) proveSite(s bsite) bool {
 		lb.Unproved++
 	}
 	return ok
+}
+
+// ---- callee path summaries (acyclic callees): each entry→return path yields the conditions that
+// hold on it and the values returned, phis resolved along the path.
+
+type calleePath struct {
+	conds   []cons
+	results []ssa.Value
+	subst   map[lvar]lin // phi resolution along the path
+}
+
+var calleePathCache = map[*ssa.Function][]calleePath{}
+var calleePathOK = map[*ssa.Function]bool{}
+
+func (lb *LB) pathsOfCallee(f *ssa.Function) ([]calleePath, bool) {
+	if ps, ok := calleePathCache[f]; ok {
+		return ps, calleePathOK[f]
+	}
+	calleePathCache[f] = nil
+	calleePathOK[f] = false
+	if f.Blocks == nil {
+		return nil, false
+	}
+	if len(loopHeaders(f)) > 0 || len(f.Blocks) > 40 {
+		// callee with loops: one summary per return instruction, using only the conditions on
+		// dominating branch edges (valid for every execution that reaches that return)
+		var out []calleePath
+		for _, b := range f.Blocks {
+			ret, ok := b.Instrs[len(b.Instrs)-1].(*ssa.Return)
+			if !ok {
+				continue
+			}
+			out = append(out, calleePath{conds: lb.branchFacts(b), results: ret.Results, subst: map[lvar]lin{}})
+		}
+		if len(out) == 0 || len(out) > 16 {
+			return nil, false
+		}
+		calleePathCache[f] = out
+		calleePathOK[f] = true
+		return out, true
+	}
+	var out []calleePath
+	var walk func(path []*ssa.BasicBlock) bool
+	walk = func(path []*ssa.BasicBlock) bool {
+		if len(out) > 32 {
+			return false
+		}
+		b := path[len(path)-1]
+		last := b.Instrs[len(b.Instrs)-1]
+		if ret, ok := last.(*ssa.Return); ok {
+			cp := calleePath{subst: map[lvar]lin{}}
+			// phi resolution
+			for j := 1; j < len(path); j++ {
+				for _, phi := range phisOf(path[j]) {
+					for pi, pr := range path[j].Preds {
+						if pr == path[j-1] {
+							e := phi.Edges[pi]
+							if _, _, isInt := intKind(phi.Type()); isInt {
+								cp.subst[lvar{0, phi}] = lb.linOf(e)
+							} else {
+								cp.subst[lvar{1, phi}] = lb.lenLin(e)
+								cp.subst[lvar{2, phi}] = linVar(lvar{2, lenBase(e)})
+							}
+						}
+					}
+				}
+			}
+			for j := 0; j+1 < len(path); j++ {
+				if ifi, ok := lastIf(path[j]); ok && path[j].Succs[0] != path[j].Succs[1] {
+					for _, cn := range lb.condFacts(ifi.Cond, path[j].Succs[0] == path[j+1]) {
+						cp.conds = append(cp.conds, cons{l: lb.applySubst(cn.l, cp.subst), ne: cn.ne})
+					}
+				}
+			}
+			cp.results = ret.Results
+			out = append(out, cp)
+			return true
+		}
+		if _, ok := last.(*ssa.Panic); ok {
+			return true // no return on this path
+		}
+		for _, s := range b.Succs {
+			if !walk(append(append([]*ssa.BasicBlock{}, path...), s)) {
+				return false
+			}
+		}
+		return true
+	}
+	if !walk([]*ssa.BasicBlock{f.Blocks[0]}) {
+		return nil, false
+	}
+	calleePathCache[f] = out
+	calleePathOK[f] = true
+	return out, true
+}
+
+// callAlts: alternatives describing the results of a static call to an acyclic repo function
+func (lb *LB) callAlts(call *ssa.Call, subst map[lvar]lin) ([]alt, bool) {
+	var callee *ssa.Function
+	if sc := call.Call.StaticCallee(); sc != nil && inRepo(sc) {
+		callee = sc
+	} else if mc, ok := call.Call.Value.(*ssa.MakeClosure); ok {
+		callee, _ = mc.Fn.(*ssa.Function)
+	}
+	if callee == nil {
+		return nil, false
+	}
+	paths, ok := lb.pathsOfCallee(callee)
+	if !ok || len(paths) == 0 {
+		return nil, false
+	}
+	args := call.Call.Args
+	ps := map[lvar]lin{}
+	for i, prm := range callee.Params {
+		if i >= len(args) {
+			break
+		}
+		if _, _, isInt := intKind(prm.Type()); isInt {
+			ps[lvar{0, prm}] = lb.linOf(args[i])
+		} else {
+			ps[lvar{1, prm}] = lb.lenLin(args[i])
+		}
+	}
+	var alts []alt
+	for _, cp := range paths {
+		ns := map[lvar]lin{}
+		for k, v := range subst {
+			ns[k] = v
+		}
+		for k, v := range cp.subst {
+			ns[k] = lb.applySubst(v, ps)
+		}
+		for k, v := range ps {
+			ns[k] = v
+		}
+		// results
+		res := cp.results
+		if len(res) == 1 {
+			if _, _, isInt := intKind(res[0].Type()); isInt {
+				ns[lvar{0, call}] = lb.applySubst(lb.applySubst(lb.linOf(res[0]), cp.subst), ps)
+			} else {
+				ns[lvar{1, call}] = lb.applySubst(lb.applySubst(lb.lenLin(res[0]), cp.subst), ps)
+			}
+		} else if refs := call.Referrers(); refs != nil {
+			for _, u := range *refs {
+				ex, ok := u.(*ssa.Extract)
+				if !ok || ex.Index >= len(res) {
+					continue
+				}
+				if _, _, isInt := intKind(ex.Type()); isInt {
+					ns[lvar{0, ex}] = lb.applySubst(lb.applySubst(lb.linOf(res[ex.Index]), cp.subst), ps)
+				} else {
+					ns[lvar{1, ex}] = lb.applySubst(lb.applySubst(lb.lenLin(res[ex.Index]), cp.subst), ps)
+				}
+			}
+		}
+		var facts []cons
+		for _, cn := range cp.conds {
+			facts = append(facts, cons{l: lb.applySubst(cn.l, ps), ne: cn.ne})
+		}
+		alts = append(alts, alt{facts, ns})
+	}
+	return alts, true
+}
+
+// loopLenInvariant: for a loop-header phi of slice type, len(phi) == K if the entry value has
+// constant length K and every back-edge value has length K under the hypothesis len(phi) == K.
+var loopLenCache = map[*ssa.Phi]int64{}
+
+func (lb *LB) loopLenInvariant(phi *ssa.Phi) (int64, bool) {
+	if k, ok := loopLenCache[phi]; ok {
+		return k, k >= 0
+	}
+	loopLenCache[phi] = -1
+	h := phi.Block()
+	var k int64 = -1
+	for i, e := range phi.Edges {
+		if h.Dominates(h.Preds[i]) {
+			continue
+		}
+		l := lb.lenLin(e)
+		// resolve through definition facts: must be provably constant
+		for _, cand := range []int64{16, 32, 8, 4, 64, 0} {
+			if lb.prove(eqc(l, linConst(cand)), h.Preds[i], nil, map[lvar]lin{}, 2) {
+				if k >= 0 && k != cand {
+					return 0, false
+				}
+				k = cand
+				break
+			}
+		}
+	}
+	if k < 0 {
+		return 0, false
+	}
+	hyp := eqc(linVar(lvar{1, phi}), linConst(k))
+	for i, e := range phi.Edges {
+		if !h.Dominates(h.Preds[i]) {
+			continue
+		}
+		if !lb.prove(eqc(lb.lenLin(e), linConst(k)), h.Preds[i], hyp, map[lvar]lin{}, 1) {
+			return 0, false
+		}
+	}
+	loopLenCache[phi] = k
+	return k, true
 }
